@@ -85,7 +85,8 @@ type tCond struct {
 type tObj struct {
 	Key   [3]int   `json:"key"`
 	Data  [][2]int `json:"data"`
-	Label bool     `json:"label"`
+	Label bool     `json:"label"`  // carries package-operator.run/cache=True (exactly)
+	LOther int     `json:"lother"` // carries the label key with another value: 2 "true", 3 "False", 4 "" (0: not)
 	Ctrl  int      `json:"ctrl"` // controller owner: 0 none, 1 the template, 2 somebody else
 	Gen   int      `json:"gen"`
 	SObs  *int     `json:"sobs"`
@@ -105,7 +106,8 @@ type tTmpl struct {
 }
 
 type tStep struct {
-	Op      string    `json:"op"` // put | del | tedit | pass | tdel | env | poke
+	Op      string    `json:"op"` // put | del | tedit | pass | drain | tdel | env | poke
+	LOther  int       `json:"lother,omitempty"`
 	Key     *[3]int   `json:"key,omitempty"`
 	Data    [][2]int  `json:"data,omitempty"`
 	Label   bool      `json:"label,omitempty"`
@@ -147,8 +149,9 @@ type tTmplState struct {
 
 type tSnap struct {
 	Store []tObj      `json:"store"`
-	Tmpl  *tTmplState `json:"tmpl"`
-	Watch [][2]int    `json:"watch"`
+	Tmpl    *tTmplState `json:"tmpl"`
+	Watch   [][2]int    `json:"watch"`
+	Pending bool        `json:"pending"` // a request for the template sits in the (recording) work queue
 }
 
 type tStepObs struct {
@@ -294,6 +297,9 @@ func tStatusNum(s string) int {
 	return -1
 }
 
+// values of the cache label other than the one the informers select on
+var tOtherLabel = map[int]string{2: "true", 3: "False", 4: ""}
+
 func (o tObj) concrete(prefix string) map[string]any {
 	i := tkTable[o.Key[0]]
 	md := map[string]any{"name": "n" + strconv.Itoa(o.Key[2]), "generation": int64(o.Gen)}
@@ -302,6 +308,8 @@ func (o tObj) concrete(prefix string) map[string]any {
 	}
 	if o.Label {
 		md["labels"] = map[string]any{constants.DynamicCacheLabel: "True"}
+	} else if o.LOther != 0 {
+		md["labels"] = map[string]any{constants.DynamicCacheLabel: tOtherLabel[o.LOther]}
 	}
 	switch o.Ctrl {
 	case 1:
@@ -346,6 +354,14 @@ func tAbsObj(m map[string]any) tObj {
 	u := &unstructured.Unstructured{Object: m}
 	o := tObj{Key: tAbsKey(u.GroupVersionKind(), u.GetNamespace(), u.GetName()), Data: tAbsData(m),
 		Label: u.GetLabels()[constants.DynamicCacheLabel] == "True", Gen: int(u.GetGeneration()), Conds: []tCond{}}
+	if v, ok := u.GetLabels()[constants.DynamicCacheLabel]; ok && v != "True" {
+		o.LOther = 9
+		for n, s := range tOtherLabel {
+			if s == v {
+				o.LOther = n
+			}
+		}
+	}
 	for _, r := range u.GetOwnerReferences() {
 		if r.Controller != nil && *r.Controller {
 			if string(r.UID) == tMeUID {
@@ -554,8 +570,9 @@ type tHarness struct {
 	tns    int
 	trace  []tEv
 	im     *tInformerMap
-	cache  *dynamiccache.Cache
-	queue  *tQueue
+	cache   *dynamiccache.Cache
+	queue   *tQueue
+	pending bool
 }
 
 // record: every write of the controller is followed by a resync of the informers, i.e. the cache is taken
@@ -861,7 +878,7 @@ func (h *tHarness) stepPut(st tStep) bool {
 	old := h.s.RawGet(k)
 	var new map[string]any
 	if old == nil {
-		new = tObj{Key: *st.Key, Data: st.Data, Label: st.Label, Gen: 1}.concrete("k")
+		new = tObj{Key: *st.Key, Data: st.Data, Label: st.Label, LOther: st.LOther, Gen: 1}.concrete("k")
 		h.s.RawPut(new, true)
 	} else {
 		new = deepCopyMap(old)
@@ -929,7 +946,7 @@ func envOf(n int) *manifests.PackageEnvironment {
 }
 
 func (h *tHarness) snapshot() tSnap {
-	sn := tSnap{Store: []tObj{}, Watch: [][2]int{}}
+	sn := tSnap{Store: []tObj{}, Watch: [][2]int{}, Pending: h.pending}
 	for _, k := range h.s.RawKeys() {
 		if k.Group == corev1alpha1.GroupVersion.Group {
 			continue
@@ -1089,8 +1106,10 @@ func init() {
 			switch st.Op {
 			case "put":
 				so.Kind, so.Enq = "enq", h.stepPut(st)
+				h.pending = h.pending || so.Enq
 			case "del":
 				so.Kind, so.Enq = "enq", h.stepDel(st)
+				h.pending = h.pending || so.Enq
 			case "poke":
 				h.stepPoke(st)
 			case "tedit":
@@ -1102,7 +1121,11 @@ func init() {
 			case "env":
 				env = st.Env
 				c.SetEnvironment(envOf(env))
-			case "pass":
+			case "pass", "drain":
+				if st.Op == "drain" && !h.pending {
+					break // the worker finds no request
+				}
+				h.pending = false
 				h.im.syncAll()
 				h.s.ResetPass()
 				h.trace = nil
